@@ -1,6 +1,6 @@
 (* Run/RunC07.v — case interpreter for C07: accessor coherence of the container models. *)
 From Coq Require Import ZArith List Floats.
-From Tevec Require Import Base.Prelude Model.Containers Run.Codec.
+From Tevec Require Import Base.Prelude Model.Containers Model.PolarsOut Run.Codec.
 Import ListNotations.
 
 (* the observation every container is asked for, given (len, get, to_list, slice, try_as_slice):
@@ -29,3 +29,9 @@ Definition run_vec (l : list float) : list Z := observe c_float l (Some l).
 (* containers that never offer a slice view (option view, chunked arrays) *)
 Definition run_noslice_opt (l : list (option float)) : list Z := observe (c_opt c_float) l None.
 Definition run_chunked (c : chunked float) : list Z := observe (c_opt c_float) (chunked_to_list c) None.
+
+(* the Polars staging buffer (Model/PolarsOut.v; polars.rs ChunkedUninit): `n` slots, the stores (slot, value) in the
+   order they were made — through UninitVec::uset and UninitRefMut::uset —, then assume_init, observed as an array *)
+Definition run_pstage (n : nat) (writes : list (nat * option float)) : list Z :=
+  run_chunked (pstage_assume_init
+                 (fold_left (fun b (w : nat * option float) => pstage_uset (fst w) (snd w) b) writes (pstage_uninit n))).
